@@ -21,10 +21,13 @@ TEXT = {
     "C10.output-defined": "a class that read-modify-writes (|=, &=, ^=, +=, -=) storage reached through a reference member bound by its constructor "
                           "(an output buffer handed in by the caller) must clear that storage in every constructor that binds the reference: "
                           "otherwise the answer depends on what the caller's memory held before (BitWriteStreamT / SerialBuffer)",
+    "C10.sequenced": "no expression of the library has two operands (call arguments, operands of a binary operator other than && || and the comma, the two "
+                     "sides of an assignment) that both have side effects - write through this / a reference / a pointer, or call user code: the order in which "
+                     "they are evaluated is unspecified, so which callback runs first (or which write wins) would be the compiler's choice, not a function of the inputs",
     "C10.rebind": "a reference / pointer member bound to a sub-object of the same complete object (static_cast<B&>(*this) handed down a constructor chain; "
                   "&member[...] stored into another member) requires a user-provided copy constructor that re-binds it",
 }
-MIN_INSTANCES = {"C10.output-defined": 1, "C10.base-order": 2, "C10.definite-init": 30, "C10.no-statics": 1, "C10.copy-complete": 2, "C10.rebind": 1}
+MIN_INSTANCES = {"C10.output-defined": 1, "C10.base-order": 2, "C10.definite-init": 30, "C10.no-statics": 1, "C10.copy-complete": 2, "C10.rebind": 1, "C10.sequenced": 500}
 
 # aggregates without constructors whose members are always given at the (brace) construction site — confirmed by reading
 BRACE_AGGREGATES = {"Request": "struct Request {type, index}: always constructed as Request{type, index} / {type, index}",
@@ -45,12 +48,117 @@ def check(ctx, F):
     check_copy_complete(ctx, F)
     check_rebind(ctx, F)
     check_output_defined(ctx, F)
+    check_sequenced(ctx, F)
     # ... and what is *read* from caller memory is what the caller handed over: replay reads transitions[i] for i < count only (C09.replay)
     from . import C09, C03, C18
     if any(bb.get("cls") == "StreamBufferT" and bb["name"] == "clear" for bb in F.bodies.values()):
         C18._FN["F"] = F
         C18.check_buffer_clear(ctx, F, "C10.output-defined")
     C09.check_replay_bounds(ctx, F, "C10.output-defined")
+
+
+def _effectful(F):
+    """functions with side effects visible to their caller: declared outside the library (user code, reached through the state types), writing through
+    this / a reference or pointer parameter / a non-local, or calling such a function (fixpoint over the resolved callees)"""
+    from .. import facts as factsmod
+    lib = (factsmod.REPO.rstrip("/") + "/", "/usr/")
+    eff = set()
+
+    def writes(b):
+        params = {p.get("n"): p for p in b.get("params", [])}
+        for x in walk(b.get("body") or {}):
+            k = x.get("k")
+            if k == "asg" or (k == "un" and x.get("op") in ("++", "--")):
+                root = strip(x["lhs"] if k == "asg" else x["e"])
+                through = False
+                while root.get("k") in ("idx", "mem", "un", "cast", "paren"):
+                    if root.get("k") == "un":
+                        if root.get("op") != "*":
+                            break
+                        through = True
+                        root = strip(root.get("e") or {})
+                        continue
+                    if root.get("k") == "mem" and root.get("arrow"):
+                        through = True
+                    nxt = root.get("b") if root.get("k") in ("idx", "mem") else root.get("e")
+                    if nxt is None:
+                        break
+                    root = strip(nxt)
+                rk = root.get("k")
+                if rk in ("this", "mem"):
+                    return True
+                if rk == "var":
+                    d = root.get("d")
+                    if d == "param":
+                        pp = params.get(root.get("n"), {})
+                        if pp.get("ref") or (through and pp.get("ptr")) or through:
+                            return True
+                    elif d != "local" or through:
+                        return True
+                elif rk == "call":
+                    return True
+        return False
+
+    for fid, b in F.bodies.items():
+        if not b["inst"]:
+            continue
+        if writes(b):
+            eff.add(fid)
+    user = {}
+
+    def is_user(f):
+        if f not in user:
+            loc = F.fn(f).get("loc") or ""
+            user[f] = bool(loc) and not loc.startswith(lib)
+        return user[f]
+    changed = True
+    while changed:
+        changed = False
+        for fid, b in F.bodies.items():
+            if fid in eff or not b["inst"]:
+                continue
+            for x in walk(b.get("body") or {}):
+                if x.get("k") in ("call", "ctor") and "f" in x and (x["f"] in eff or (F.body(x["f"]) is None and is_user(x["f"]))):
+                    eff.add(fid)
+                    changed = True
+                    break
+    return eff, is_user
+
+
+def check_sequenced(ctx, F, user_scope=False):
+    eff, is_user = _effectful(F)
+
+    def effects(e):
+        return [F.fn(x["f"])["name"] for x in walk(e or {})
+                if x.get("k") in ("call", "ctor") and "f" in x and (x["f"] in eff or (F.body(x["f"]) is None and is_user(x["f"])))]
+
+    n = 0
+    for fid, b in F.bodies.items():
+        if not b["inst"] or (not user_scope and is_user(fid)):
+            continue
+        n += 1
+        ctx.instance("C10.sequenced", "%s::%s" % (b.get("cls"), b["name"]), {"function": "%s::%s" % (b.get("cls"), b["name"]), "loc": F.floc(fid)})
+        for x in walk(b.get("body") or {}):
+            k = x.get("k")
+            ops = None
+            if k in ("call", "ctor") and not x.get("list"):
+                ops = [o for o in [x.get("obj")] + list(x.get("a", [])) if o is not None]
+                what = "arguments of the call to %s" % (F.fn(x["f"])["name"] if "f" in x else "?")
+            elif k == "bin" and x.get("op") not in ("&&", "||", ","):
+                ops = [x.get("lhs"), x.get("rhs")]
+                what = "operands of `%s`" % x.get("op")
+            elif k == "asg":
+                ops = [x.get("lhs"), x.get("rhs")]
+                what = "sides of the assignment"
+            if not ops:
+                continue
+            hit = [a for a in (effects(o) for o in ops) if a]
+            if len(hit) >= 2:
+                site = "%s::%s" % (b.get("cls"), b["name"])
+                ctx.violation("C10.sequenced", site + "/" + "+".join(h[0] for h in hit), "%s (%s)" % (site, F.floc(fid)),
+                              "two %s have side effects (%s) and their order of evaluation is unspecified: which runs first is the compiler's choice"
+                              % (what, " / ".join("+".join(sorted(set(h))) + "()" for h in hit)), {})
+    ctx.note("C10.sequenced: %d functions scanned, %d with caller-visible effects" % (n, len(eff)))
 
 
 def reachable(F, fid, limit=200000):
@@ -381,6 +489,12 @@ def check_rebind(ctx, F):
 
 
 # planted positive examples (witness/canary.cpp)
-CANARY = {"check": [check_statics],
-          "expect": ["C10.no-statics|global/canary::g_counter", "C10.no-statics|global/canary::g_tls", "C10.no-statics|local/None::next_id/id"]}
+def _canary_sequenced(ctx, F):
+    check_sequenced(ctx, F, user_scope=True)
+
+
+CANARY = {"check": [check_statics, _canary_sequenced],
+          "expect": ["C10.no-statics|global/canary::g_counter", "C10.no-statics|global/canary::g_tls", "C10.no-statics|local/None::next_id/id",
+                     "C10.sequenced|None::two_draws", "C10.sequenced|None::sum_draws"],
+          "forbid": ["::ordered_draws", "::either"]}
 
